@@ -350,7 +350,7 @@ pub fn run(args: &Args, rep: &mut Report) {
         } else if full {
             if args.tier_thorough { 640 } else { 32 }
         } else if args.tier_thorough {
-            60_000
+            150_000
         } else {
             2_500
         },
